@@ -252,7 +252,12 @@ def run(prop, propose=False, replay=None):
                 # is the one-line summary of the description spread over several lines in the text just emitted?
                 conc = (replays.get(tr["id"]) or {}).get("concrete") or []
                 this = conc[l - 1] if 1 <= l <= len(conc) and conc[l - 1].get("a") == "emit" else None
-                feat["sumwrap"] = bool(this and meta["sc"]["air"]["doc"] == "one" and summary_lines(str(this.get("text") or "")) > 1)
+                text_ = str((this or {}).get("text") or "")
+                width_ = int(meta["env"].get("DOCTRANS_LINE_LENGTH", 100))
+                # ... or does a several-line summary share the docstring with a line that is too long (the second wrapping
+                # pass of to_docstring then re-indents every continuation line, those of the summary included)?
+                overlong = any(len(x) > width_ for x in text_.splitlines())
+                feat["sumwrap"] = bool(this and summary_lines(text_) > 1 and (meta["sc"]["air"]["doc"] == "one" or overlong))
             seen.add((l, cl, slot))
             if not bad:
                 if propose:
